@@ -98,6 +98,71 @@ func describeLoop(f *ssa.Function, h *ssa.BasicBlock, names map[ssa.Value]string
 			if name == "xor" {
 				continue // appears inside the canonical arguments
 			}
+			// an argument chosen by a two-way test inside the body (`fb := prev; if i == 0 { fb = IV }`): the event is
+			// the pair of guarded events, one per arm
+			if conds == "" {
+				split := false
+				for ai, a := range cc.Args {
+					phi, isPhi := a.(*ssa.Phi)
+					if !isPhi || len(phi.Edges) != 2 || !inLoop[phi.Block()] {
+						continue
+					}
+					x := phi.Block().Idom()
+					if x == nil || !(inLoop[x] || x == h) {
+						continue
+					}
+					ifi, ok := lastIf(x)
+					if !ok {
+						continue
+					}
+					side := func(pred *ssa.BasicBlock) int {
+						switch {
+						case pred == x && x.Succs[0] == phi.Block():
+							return 0
+						case pred == x && x.Succs[1] == phi.Block():
+							return 1
+						case pred == x.Succs[0] || x.Succs[0].Dominates(pred):
+							if len(x.Succs[0].Preds) == 1 {
+								return 0
+							}
+						case pred == x.Succs[1] || x.Succs[1].Dominates(pred):
+							if len(x.Succs[1].Preds) == 1 {
+								return 1
+							}
+						}
+						return -1
+					}
+					s0, s1 := side(phi.Block().Preds[0]), side(phi.Block().Preds[1])
+					if s0 < 0 || s1 < 0 || s0 == s1 {
+						continue
+					}
+					cond := be.plain(ifi.Cond, ifi).String()
+					for k := 0; k < 2; k++ {
+						guard := "[" + cond + "] "
+						if k == 1 {
+							guard = "[!" + cond + "] "
+						}
+						e := phi.Edges[0]
+						if s0 != k {
+							e = phi.Edges[1]
+						}
+						var args []string
+						for aj, b := range cc.Args {
+							if aj == ai {
+								args = append(args, be.bytesOf(e, call).String())
+							} else {
+								args = append(args, be.bytesOf(b, call).String())
+							}
+						}
+						ld.Events = append(ld.Events, guard+name+"("+strings.Join(args, ", ")+")")
+					}
+					split = true
+					break
+				}
+				if split {
+					continue
+				}
+			}
 			var args []string
 			for _, a := range cc.Args {
 				args = append(args, be.bytesOf(a, call).String())
